@@ -1176,6 +1176,53 @@ func ruleHeapNonEmpty(c *Ctx, r *R) {
 						evidence = "count-down from Len()"
 					}
 				}
+				// the same drain counting up: `for i := range out` / `for i := 0; i < len(out); i++` with out = make([]T, h.Len())
+				if op == token.LSS {
+					isLenOfDrainBuf := func(v ssa.Value) bool {
+						lc, ok := resolveVal(v).(*ssa.Call)
+						if !ok {
+							return false
+						}
+						if bi, ok := lc.Call.Value.(*ssa.Builtin); !ok || bi.Name() != "len" {
+							return false
+						}
+						ms, ok := resolveVal(lc.Call.Args[0]).(*ssa.MakeSlice)
+						return ok && isLen(ms.Len)
+					}
+					countsUp := func(v ssa.Value) bool {
+						// i = phi[0, i+1], or (range loop) i+1 with i = phi[-1, i+1]
+						if phi, ok := v.(*ssa.Phi); ok && len(phi.Edges) == 2 {
+							z, st := false, false
+							for _, e := range phi.Edges {
+								if isConstInt(e, 0) {
+									z = true
+								}
+								if bin, ok := e.(*ssa.BinOp); ok && bin.Op == token.ADD && bin.X == ssa.Value(phi) && isConstInt(bin.Y, 1) {
+									st = true
+								}
+							}
+							return z && st
+						}
+						if bin, ok := v.(*ssa.BinOp); ok && bin.Op == token.ADD && isConstInt(bin.Y, 1) {
+							if phi, ok := bin.X.(*ssa.Phi); ok && len(phi.Edges) == 2 {
+								m1, st := false, false
+								for _, e := range phi.Edges {
+									if isConstInt(e, -1) {
+										m1 = true
+									}
+									if e == ssa.Value(bin) {
+										st = true
+									}
+								}
+								return m1 && st
+							}
+						}
+						return false
+					}
+					if isLenOfDrainBuf(y) && countsUp(x) {
+						evidence = "count-up to Len()"
+					}
+				}
 			}
 			// a Push on the same heap earlier in this block, no Pop in between
 			for j := i - 1; j >= 0 && evidence == ""; j-- {
